@@ -16,3 +16,7 @@ package state
 //@   ensures result0 != nil && result1 != nil && result0.val >= 0 && result1.val >= 0
 //@   ensures forall i int :: 0 <= i && i < len(result4) ==> result4[i] != nil && result4[i].ValueBigInt != nil && result4[i].ValueBigInt.val >= 0
 //@   modifies swapAbs, ledgerDelta
+
+//@ func NewCheckState
+//@   ensures result != nil && fresh(result) && result.state == state
+//@   modifies nothing
